@@ -602,6 +602,7 @@ fn key_tags(c: &mut Ctx, log: &mut Option<std::fs::File>) {
 }
 
 pub fn run(c: &mut Ctx) {
+    c.families(2);
     let mut log = std::fs::File::create(c.logdir.join(format!("dnssec_{}.jsonl", c.shard))).ok();
     let keys = make_keys();
     c.count("keys_available", keys.len() as u64);
